@@ -73,12 +73,10 @@ def load_prop(pid: str):
     return importlib.import_module(f"pyxsim.props.{pid.lower()}")
 
 
-class _Timeout(Exception):
-    pass
-
-
 def _alarm(_sig, _frm):
-    raise _Timeout()
+    from . import sched
+
+    raise sched.ScenarioTimeout("scenario wall timeout")
 
 
 def run_one(mod, scn: dict, forced=None) -> dict:
@@ -90,7 +88,7 @@ def run_one(mod, scn: dict, forced=None) -> dict:
     try:
         out = mod.execute(scn, forced=forced) if forced is not None else mod.execute(scn)
         out.setdefault("harness_error", None)
-    except _Timeout:
+    except sched.ScenarioTimeout:
         out = {"violations": [], "stats": {}, "harness_error": "scenario wall timeout", "digest": "timeout"}
     except sched.HarnessError as exc:
         out = {"violations": [], "stats": {}, "harness_error": f"HarnessError: {exc}", "digest": "harness"}
